@@ -2,5 +2,5 @@ CONSTANTS NodeId0 = 5  Walk = FALSE  WalkLen = 0
 CONSTANT Ident <- ID  Letters <- LQuick  ProbeLetters <- PL
 INIT Init
 NEXT Next
-VIEW View
+VIEW ViewM
 INVARIANT InvC18
